@@ -180,6 +180,26 @@ fn err_val(e: &cacache::Error) -> Value {
     }
 }
 
+// Errors returned by the library stay ALIVE until the next request is executed (in one-shot
+// mode: until the process exits, as for a caller that prints the error and exits): whatever
+// an error value owns - a temp file, a descriptor - is part of the observable state after a
+// failed call.
+static HELD: std::sync::Mutex<Vec<cacache::Error>> = std::sync::Mutex::new(Vec::new());
+
+fn hold(e: cacache::Error) -> Value {
+    let v = err_val(&e);
+    if let Ok(mut h) = HELD.lock() {
+        h.push(e);
+    }
+    v
+}
+
+fn release_held() {
+    if let Ok(mut h) = HELD.lock() {
+        h.clear();
+    }
+}
+
 fn raw_io(e: &std::io::Error) -> Value {
     json!({"variant":"RawIo","io":io_err_val(e)})
 }
@@ -198,7 +218,7 @@ fn meta_val(m: &cacache::Metadata) -> Value {
 fn lift<T>(r: cacache::Result<T>, f: impl FnOnce(T) -> Value) -> R {
     match r {
         Ok(v) => Ok(f(v)),
-        Err(e) => Err(err_val(&e)),
+        Err(e) => Err(hold(e)),
     }
 }
 
@@ -235,6 +255,15 @@ fn opts_of(v: Option<&Value>) -> WriteOpts {
         // {"meta": {"v": <json>}} so that an explicit null can be told from absent
         if let Some(inner) = m.get("v") {
             o = o.metadata(inner.clone());
+        } else if let Some(n) = m.get("nest").and_then(|x| x.as_u64()) {
+            // a value nested deeper than a JSON parser's recursion limit cannot travel in the
+            // request: {"nest": n, "obj": bool, "leaf": v} is built here, iteratively
+            let mut val = m.get("leaf").cloned().unwrap_or(Value::Null);
+            let obj = m.get("obj").and_then(|x| x.as_bool()).unwrap_or(false);
+            for _ in 0..n {
+                val = if obj { json!({ "a": val }) } else { json!([val]) };
+            }
+            o = o.metadata(val);
         }
     }
     if let Some(r) = v.get("raw").and_then(|x| x.as_str()) {
@@ -450,7 +479,7 @@ impl Drv {
                     };
                     match r {
                         Ok(w) => Ok(self.put(Handle::SyncWriter(w))),
-                        Err(e) => Err(err_val(&e)),
+                        Err(e) => Err(hold(e)),
                     }
                 } else {
                     asy!({
@@ -464,7 +493,7 @@ impl Drv {
                         };
                         match r {
                             Ok(w) => Ok(self.put(Handle::Writer(w))),
-                            Err(e) => Err(err_val(&e)),
+                            Err(e) => Err(hold(e)),
                         }
                     })
                 }
@@ -595,7 +624,7 @@ impl Drv {
                     };
                     match r {
                         Ok(x) => Ok(self.put(Handle::SyncReader(x))),
-                        Err(e) => Err(err_val(&e)),
+                        Err(e) => Err(hold(e)),
                     }
                 } else {
                     asy!({
@@ -605,7 +634,7 @@ impl Drv {
                         };
                         match r {
                             Ok(x) => Ok(self.put(Handle::Reader(x))),
-                            Err(e) => Err(err_val(&e)),
+                            Err(e) => Err(hold(e)),
                         }
                     })
                 }
@@ -746,7 +775,7 @@ impl Drv {
                     };
                     match r {
                         Ok(x) => Ok(self.put(Handle::SyncLinker(x))),
-                        Err(e) => Err(err_val(&e)),
+                        Err(e) => Err(hold(e)),
                     }
                 } else {
                     asy!({
@@ -758,7 +787,7 @@ impl Drv {
                         };
                         match r {
                             Ok(x) => Ok(self.put(Handle::Linker(x))),
-                            Err(e) => Err(err_val(&e)),
+                            Err(e) => Err(hold(e)),
                         }
                     })
                 }
@@ -867,6 +896,7 @@ fn main() {
         if req.get("op").and_then(|x| x.as_str()) == Some("quit") {
             break;
         }
+        release_held();
         let resp = drv.run(&req);
         let mut o = out.lock();
         let _ = writeln!(o, "{}", resp);
